@@ -29,8 +29,8 @@ PR_STUB = ("in the driver harnesses process_references is replaced by its contra
            "u_insert_reduce; insert pass: tokens on disk <= ids taken <= missing, counter = start + ids taken, no wrap); "
            "the lifting from one file (u_insert) to many files is an induction argument, not a solver result")
 FINDER_STUB = "CodeFinder::find stubbed: 0..2 files or failure (walkdir is FFI)"
-LOCK_STUB = ("serde_yaml::to_string and std::fs::write stubbed: lock model records the value written; the lock "
-             "write itself is assumed to succeed")
+LOCK_STUB = ("Context::cache_next_reference_id replaced by its contract (use_cache off: nothing; on: the lock records exactly the "
+             "id given), which u_ctx_write discharges on the real function; the lock write itself is assumed to succeed")
 LOG_NOTE = "log macros are the real `log` crate with no logger installed (max level Off): arguments are not formatted"
 TRACING = "tracing::event! replaced by a no-op shim (Kani cannot compile the real macro expansion)"
 
@@ -67,6 +67,12 @@ K_HARNESSES = {
         functions=[GEN + "::InsertReferencesProcessor::map"],
         stubs=3, assumptions=[DESUGAR, FS_MODEL, TOKEN_STUB, TEMP_STUB, UNLINK_STUB, LOG_NOTE, TRACING],
         bound="2 entries whose offsets decrease, <= NBYTES symbolic bytes, no injected failures"),
+    "u_insert2": dict(
+        functions=[GEN + "::InsertReferencesProcessor::map (two consecutive files, shared counter)"],
+        stubs=3, assumptions=[DESUGAR, FS_MODEL, TOKEN_STUB, TEMP_STUB, UNLINK_STUB, LOG_NOTE, TRACING,
+                              "entries sorted by strictly increasing byte offset <= file length", "counter start >= 1",
+                              "no injected failures in this harness"],
+        bound="2 files of <= NBYTES symbolic bytes, NENT entries each, symbolic u32 counter start, every drain schedule"),
     "u_insert_reduce": dict(
         functions=[GEN + "::InsertReferencesProcessor::reduce"],
         stubs=0, assumptions=[], bound="<= 3 per-file results, counts < 2^40"),
@@ -84,7 +90,7 @@ K_HARNESSES = {
     "u_ctx_read": dict(
         module="verif_context",
         functions=["src/config/context.rs::Context::read_cached_next_reference_id"],
-        stubs=7, assumptions=["std::path::Path::exists, std::fs::read_to_string, serde_yaml::from_str stubbed with arbitrary outcomes; "
+        stubs=8, assumptions=["std::path::Path::join stubbed (empty path: the lock path does not matter to the model); std::path::Path::exists, std::fs::read_to_string, serde_yaml::from_str stubbed with arbitrary outcomes; "
                               "std::fs::{remove_file, remove_dir_all, rename, write} stubbed to count mutations (any other file-system call is FFI and makes Kani fail)"],
         bound="use_cache on/off, lock absent/present, readable or not, parsable or not, any u32 value",
         ignore=["rust_dealloc must be called", "free argument", "double free", "free called for new"],
@@ -94,33 +100,36 @@ K_HARNESSES = {
     "u_ctx_write": dict(
         module="verif_context",
         functions=["src/config/context.rs::Context::cache_next_reference_id"],
-        stubs=4, assumptions=["serde_yaml::to_string and std::fs::{write, remove_file, rename} stubbed (lock model records the value)"],
+        stubs=5, assumptions=["std::path::Path::join, serde_yaml::to_string and std::fs::{write, remove_file, rename} stubbed (lock model records the value)"],
         bound="use_cache on/off, any u32 id"),
     "d_generate": dict(
-        functions=[GEN + "::generate_code", "src/config/context.rs::Context::cache_next_reference_id",
-                   "src/codegen/finder.rs::CodeFinder::new"],
-        stubs=4, assumptions=[DESUGAR, PR_STUB, FINDER_STUB, LOCK_STUB, LOG_NOTE,
+        functions=[GEN + "::generate_code", "src/codegen/finder.rs::CodeFinder::new"],
+        stubs=3, assumptions=[DESUGAR, PR_STUB, FINDER_STUB, LOCK_STUB, LOG_NOTE,
                               "precondition (induction hypothesis of C02): a lock that is read is >= 1 and above every id in the tree",
                               "the value 4294967295 in counter/lock means 'range exhausted': no id is handed out from it"],
         bound="<= 2 files, <= 3 missing references, every u32 for max existing id / lock value, lock absent/present/"
               "unparsable, use_cache on/off, stop flag set before or during any pass, pass failure arbitrary"),
     "d_generate_kill": dict(
         functions=[GEN + "::generate_code"],
-        stubs=4, assumptions=[DESUGAR, PR_STUB, FINDER_STUB, LOCK_STUB, LOG_NOTE],
+        stubs=3, assumptions=[DESUGAR, PR_STUB, FINDER_STUB, LOCK_STUB, LOG_NOTE],
         bound="as d_generate; asks about the operation boundary between the insert pass and the lock write"),
     "d_check": dict(
         functions=[GEN + "::check_references", "src/codegen/finder.rs::CodeFinder::new"],
-        stubs=4, assumptions=[DESUGAR, PR_STUB, FINDER_STUB, LOCK_STUB, LOG_NOTE],
+        stubs=3, assumptions=[DESUGAR, PR_STUB, FINDER_STUB, LOCK_STUB, LOG_NOTE],
         bound="<= 2 files, <= 3 missing references, lock any state, stop flag set before or during the pass"),
 }
 
 QUICK_BOUNDS = {"NBYTES": 4, "NENT": 2}
-DEEP_BOUNDS = {"NBYTES": 6, "NENT": 3}
+# (6 bytes, 3 entries) makes CBMC's allocator model raise a spurious `free argument has offset zero`; the two
+# dimensions are therefore deepened separately
+DEEP_BOUNDS = {"bytes": {"NBYTES": 6, "NENT": 2}, "entries": {"NBYTES": 4, "NENT": 3}}
 
 
 def K(harness, deep=False, timeout=900, mem_gb=20):
-    return {"engine": "K", "name": harness + ("@deep" if deep else ""), "harness": harness,
-            "bounds": DEEP_BOUNDS if deep else QUICK_BOUNDS, "timeout": timeout, "mem_gb": mem_gb}
+    if deep:
+        return [{"engine": "K", "name": "%s@deep-%s" % (harness, k), "harness": harness, "bounds": b, "timeout": timeout,
+                 "mem_gb": mem_gb} for k, b in DEEP_BOUNDS.items()]
+    return {"engine": "K", "name": harness, "harness": harness, "bounds": QUICK_BOUNDS, "timeout": timeout, "mem_gb": mem_gb}
 
 
 def S(name, fn, **kw):
@@ -134,7 +143,7 @@ def obligations(prop, tier):
     deep = tier == "thorough"
     q = {
         "C01": [K("u_nextid"), K("u_insert"), K("d_generate")],
-        "C02": [K("u_insert"), K("d_generate"), K("d_generate_kill")],
+        "C02": [K("u_insert"), K("d_generate"), K("d_generate_kill"), K("u_ctx_write")],
         "C03": [K("u_insert"), K("u_insert_unordered"), K("u_load")],
         "C04": [K("u_count"), K("d_check"), K("u_pr"), K("u_load"), K("u_ctx_read")],
         "C05": [K("u_count"), K("u_nextid"), K("u_insert"), K("u_insert_reduce"), K("d_check"), K("u_pr")],
@@ -142,16 +151,15 @@ def obligations(prop, tier):
         "C07": [K("u_insert"), K("u_insert_unordered")],
         "C08": [K("u_insert"), K("u_insert_reduce"), K("d_generate")],
         "C16": [K("d_generate"), K("d_check"), K("u_ctx_read"), K("u_ctx_write")],
-        "C02": [K("u_insert"), K("d_generate"), K("d_generate_kill"), K("u_ctx_write")],
         "C17": [K("u_nextid"), K("u_count"), K("u_insert"), K("u_insert_reduce"), K("d_generate"), K("d_check"), K("u_pr"), K("u_load")],
-        "C18": [K("d_generate"), K("d_check"), K("u_pr")],
+        "C18": [K("d_generate"), K("d_check"), K("u_pr"), K("u_ctx_write")],
     }
     obs = list(q.get(prop, []))
     if prop == "C13":
         obs = [K("u_insert")]
     if deep:
         extra = {
-            "C01": [K("u_nextid", True), K("u_insert", True, 2400, 28)],
+            "C01": [K("u_nextid", True), K("u_insert", True, 2400, 28), K("u_insert2", False, 2400, 28)],
             "C02": [K("u_insert", True, 2400, 28)],
             "C03": [K("u_insert", True, 2400, 28), K("u_insert_unordered", True, 2400)],
             "C05": [K("u_count", True), K("u_insert", True, 2400, 28)],
@@ -160,7 +168,8 @@ def obligations(prop, tier):
             "C13": [K("u_insert", True, 2400, 28)],
             "C17": [K("u_insert", True, 2400, 28)],
         }
-        obs += extra.get(prop, [])
+        for o in extra.get(prop, []):
+            obs += o if isinstance(o, list) else [o]
     for o in obs:
         # only this property's assertions (and the untagged panic/overflow checks) are active
         o["focus"] = None if prop == "C17" else prop
@@ -358,4 +367,4 @@ def replay(path):
         r = json.load(f)
     name = r["obligation"]
     print("replaying %s for %s" % (name, r["property"]))
-    return run(r["property"], "thorough" if "@deep" in name else "quick", 0, only=[name])
+    return run(r["property"], "thorough" if ("@deep" in name or r.get("tier") == "thorough") else "quick", 0, only=[name])
